@@ -779,16 +779,17 @@ class Epoch(object):
             raise ValueError("Invalid input data")
         day = int(dd)
         frac = dd % 1
-        if yyyy >= 1:  # datetime's minimum year is 1
-            try:
-                d = datetime.date(yyyy, mm, day)
-            except ValueError:
-                raise ValueError("Invalid input date")
-            doy = d.timetuple().tm_yday
-        else:
-            k = 2 if Epoch.is_leap(yyyy) else 1
-            doy = (iint((275.0 * mm) / 9.0)
-                   - k * iint((mm + 9.0) / 12.0) + day - 30.0)
+        # Meeus' formula (chapter 7) is valid for both calendars and for any
+        # year, provided that the leap rule in force is used: 'datetime' would
+        # apply the (proleptic) Gregorian rule to Julian calendar years
+        leap = Epoch.is_leap(yyyy)
+        maxdays = [31, 29 if leap else 28, 31, 30, 31, 30, 31, 31, 30, 31, 30,
+                   31]
+        if day > maxdays[int(mm) - 1]:
+            raise ValueError("Invalid input date")
+        k = 1 if leap else 2
+        doy = (iint((275.0 * mm) / 9.0)
+               - k * iint((mm + 9.0) / 12.0) + day - 30.0)
         return float(doy + frac)
 
     def doy(self):
